@@ -185,7 +185,11 @@ def shards(tier, seed):
                              expect=['accepted']))
             out.append(Shard('receive/%s/id=%d' % (r, code), h_receive(code, client),
                              expect=['accepted']))
+    from props import c04
     for client in (True, False):
         out.append(Shard('overflow/%s' % ('client' if client else 'server'),
                          h_overflow(client), expect=['overflow', 'fits']))
+        # the same rule for OUR initial window size once the peer acknowledges it
+        out.append(Shard('overflow_inbound/%s' % ('client' if client else 'server'),
+                         c04.h_settings(client), expect=['applied', 'overflow']))
     return out
